@@ -180,7 +180,7 @@ CallFunc(name, args, S) ==
     [] name = "nul" -> <<Null, Cb(S, "func", name, args)>>
     [] OTHER -> <<ErrV, Fail(S)>>
 
-FilterKnown(name) == name \in {"rec", "up", "wrap", "escape", "raw"}
+FilterKnown(name) == name \in {"rec", "up", "wrap", "mark", "escape", "raw"}
 CallFilter(name, v, args, S) ==      \* <<value, S'>>
   LET S1 == Cb(S, "filter", name, <<v>> \o args) IN
   CASE name = "rec" -> <<v, S1>>
@@ -198,6 +198,8 @@ CallFilter(name, v, args, S) ==      \* <<value, S'>>
          ELSE LET b == CoerceBytes(v) IN IF BytesOOM(b) THEN <<OOM, OomS(S)>> ELSE <<Safe(Str(b), EscTypes), S>>
     [] name = "up"  -> LET b == CoerceBytes(v) IN
                        IF BytesOOM(b) THEN <<OOM, OomS(S1)>> ELSE <<Str(AsciiUpper(b)), S1>>
+    (* a user filter that marks its input safe for html: a NEW value; the value it was derived from keeps its own types *)
+    [] name = "mark" -> <<Safe(IF v.t = "safe" THEN v.v ELSE v, (IF v.t = "safe" THEN v.types ELSE {}) \cup {"html"}), S1>>
     [] name = "wrap" -> LET b == CoerceBytes(v)
                             w == IF args = <<>> THEN <<124>> ELSE CoerceBytes(args[1]) IN
                         IF BytesOOM(b) \/ BytesOOM(w) THEN <<OOM, OomS(S1)>> ELSE <<Str(w \o b \o w), S1>>
